@@ -5,7 +5,7 @@ the node, the cloud instance, the clock, and what the controller process holds i
 A step is either a reconcile of one of the two controllers (the single-pass models of `Karp.Model.Term`, fed with an
 observation of the world and with an arbitrary fault vector, their effects applied to the world) or an event of the
 environment (a user deletes the Node / the NodeClaim, a pod goes away or starts terminating, a new pod lands on the
-node, a volume attachment is removed, time passes, the instance disappears, the kubelet stops / resumes reporting, the
+node, a volume attachment is removed, is deleted but held by the attacher's finalizer, or appears, time passes, the instance disappears, the kubelet stops / resumes reporting, the
 controller process restarts).  The provider is honest: `Get` / `Delete` answer not-found exactly when the instance is
 gone (or fail).  Reads are linearizable (informer-cache staleness is not modelled).
 -/
@@ -52,6 +52,12 @@ inductive Event
   | podTerminating (name : String)
   | podAdd (p : Pod)
   | vaGone (name : String)
+  /-- the attach-detach controller deletes the VolumeAttachment; the external-attacher's finalizer keeps the object
+      (deletionTimestamp set) until the detach completes (`vaGone`) -/
+  | vaTerminating (name : String)
+  /-- a new VolumeAttachment of the node appears (e.g. the volume of a pod that landed late gets attached), possibly
+      after `VolumesDetached` was already recorded as True -/
+  | vaAdd (v : VA)
   | tick (d : Nat)
   | instanceGone
   | setReady (b : Bool)
@@ -152,6 +158,8 @@ def step (w : World) : Event → World
     { w with pods := w.pods.map (fun p => if p.name == name && p.deletedAt.isNone then { p with deletedAt := some (floorSec w.now) } else p) }
   | .podAdd p => if w.pods.any (·.name == p.name) then w else { w with pods := w.pods ++ [p] }
   | .vaGone name => { w with vas := w.vas.filter (·.name != name) }
+  | .vaAdd v => if w.vas.any (·.name == v.name) then w else { w with vas := w.vas ++ [v] }
+  | .vaTerminating name => { w with vas := w.vas.map (fun v => if v.name == name then { v with terminating := true } else v) }
   | .tick d => { w with now := w.now + d }
   | .instanceGone => { w with inst := .gone }
   | .setReady b => { w with node := w.node.map (fun n => { n with ready := b }) }
